@@ -868,7 +868,10 @@ class PVLParser(object):
                 + f'at the end, but found "{t}"'
             )
 
-        delim_strip = t.strip("".join(self.grammar.units_delimiters))
+        # Take off exactly the one delimiter at each end: str.strip()
+        # would take off any number of them, and "<<m>" would pass as <m>.
+        start, end = self.grammar.units_delimiters
+        delim_strip = t[len(start):len(t) - len(end)]
 
         units_value = delim_strip.strip("".join(self.grammar.whitespace))
 
